@@ -2383,8 +2383,15 @@ CLAIM = ("PARTIAL. Proved in Lean, for all inputs, about models tied to the code
          "multiply to the reported class number whenever the Smith diagonal does; (5) a sieved relation is a genuine relation (relation_genuine): for every "
          "relation built by the model of the sieve_block_poly loop body (conversion loop, Poly::factors, merge, large primes) the prime forms [p]^(+-1) of its "
          "entries, with exactly the signs the code emits (ramified primes, p = 2, primes of A, large primes included), compose by explicit Dirichlet "
-         "compositions of concordant forms to the principal form (hypotheses: large primes are odd primes; primitivity, automatic for fundamental D); "
-         "(6) classgroup::legendre is the Legendre symbol for every odd prime below 2^30 and panics above (Dividers::new). "
+         "compositions of concordant forms to the principal form (hypotheses: large primes are odd primes; primitivity, automatic for fundamental D "
+         "and derived from the conductor-prime rejection of the code for non-fundamental D: relation_genuine_conductor); every relation the store emits is then genuine "
+         "(emitted_relations_genuine); "
+         "(6) classgroup::legendre is the Legendre symbol for every odd prime below 2^30 and panics above (Dividers::new); "
+         "(7) the reference form arithmetic the driver re-checks real runs with is the arithmetic of the form class group (Props/C18Group): Form.compose "
+         "(Cohen 5.4.7, own xgcd with its fuel) keeps the discriminant and satisfies Gauss' bilinear identity for all positive definite inputs, is a Dirichlet "
+         "composition up to proper equivalence when gcd(a1, a2, (b1+b2)/2) = 1; Form.reduce with the model's fuel ends in a reduced form, the reduced form of a "
+         "class is unique, so equal reduced forms <=> properly equivalent, and every class of primitive forms has exactly one representative in the enumeration: "
+         "classNumber D is the number of form classes; the store's assert!(p != q) fires exactly on relations with two equal large primes. "
          "NOT proved, explored only: that the analytic estimate pins the "
          "right multiple (every reported class number is compared with an independent reduced-form count: exhaustively below the tier bound, "
          "randomly up to 2^40/2^44); that composition is well defined on classes (so the relations are still re-checked: every line of relations.sieve of the sampled runs up to 128 bits, with "
@@ -2394,7 +2401,8 @@ CLAIM = ("PARTIAL. Proved in Lean, for all inputs, about models tied to the code
 LEVEL_NOTE = ("Partial by nature: the user-visible guarantee (h is the class number, the group is the class group) rests on an f64 Euler product "
               "and on ideal arithmetic; neither is a theorem here. What is proved is the bookkeeping around them (sign convention uniqueness and "
               "totality, relation store = subset of inputs for all histories + totality, exactness of the reference enumeration, product of "
-              "invariants). `number of reduced primitive forms = class number` is a named definition/hypothesis. Trusted: Lean kernel (+propext, "
+              "invariants). `number of reduced primitive forms = number of form classes` is proved (class_representative_unique); form classes = ideal classes of the order is a named "
+              "classical fact. Trusted: Lean kernel (+propext, "
               "Classical.choice, Quot.sound), the hand models' correspondence to the Rust code (sampled: b_plus, relation store histories incl. the "
               "private tree through a hook, the sign decision replayed on real sieve output through a per-polynomial hook), Python integers in the "
               "oracle. A panic/refusal of classgroup() is not a wrong result and is only counted (a vacuity guard fails the check when more than half "
